@@ -136,6 +136,22 @@ theorem C18_deterministic (cfg cfg' : Cfg T A P V E) (ev ev' : Ev St P (List I) 
     run cfg ev n s = run cfg' ev' n' s' := by
   subst hc he hn hs; rfl
 
+/-- the tasks (and exceptions, generator states, remaining streams) do not depend on the evaluator
+    or its state (cache contents, cache on/off), only on the semantics: two generators that
+    differ only there produce the same results -/
+theorem C18_evaluator_independent {St' : Type} (cfg : Cfg T A P V E)
+    {ev : Ev St P (List I) V E} {ev' : Ev St' P (List I) V E} {sem : P → List I → Outcome V E}
+    {Inv : St → Prop} {Inv' : St' → Prop} (hF : Faithful ev sem Inv) (hF' : Faithful ev' sem Inv')
+    (n : Nat) (s : State T A P I St) (s' : State T A P I St') (hI : Inv s.es) (hI' : Inv' s'.es)
+    (hs : s.forget = s'.forget) :
+    (run cfg ev n s).map Out.forget = (run cfg ev' n s').map Out.forget ∧
+    tasksOf (run cfg ev n s) = tasksOf (run cfg ev' n s') := by
+  have h1 := run_forget cfg hF n s hI
+  have h2 := run_forget cfg hF' n s' hI'
+  have h : (run cfg ev n s).map Out.forget = (run cfg ev' n s').map Out.forget := by
+    rw [h1, h2, hs]
+  exact ⟨h, by rw [← tasksOf_forget (run cfg ev n s), h, tasksOf_forget]⟩
+
 /-- termination of `while True`: each iteration that goes round again has consumed a type draw,
     so the loop never needs more iterations than there are type draws (any larger fuel gives the
     same result: the only way not to return is to exhaust a stream = `stuck`) -/
@@ -143,6 +159,26 @@ theorem C18_terminates (cfg : Cfg T A P V E) (ev : Ev St P (List I) V E) (s : St
     (fuel : Nat) (h : s.types.length < fuel) :
     taskLoop cfg ev fuel { s with failed := [] } = generateTask cfg ev s :=
   taskLoop_fuel cfg ev fuel (s.types.length + 1) { s with failed := [] } h (Nat.lt_succ_self _)
+
+/-- the bounded loops are exact: they are recursions on a fuel instantiated with
+    `max_tries - counter` (`max_tries + 1 - i` for the type loop); every fuel at least that large
+    gives the same result, so no loop of the model ever stops because of its fuel -/
+theorem C18_loops_exact (cfg : Cfg T A P V E) (ev : Ev St P (List I) V E) (seen : List P) (failed : List T)
+    (nargs : Nat) (f : Nat) :
+    (∀ sol ut ds, cfg.maxTries - ut ≤ f →
+      uniqLoop seen cfg.maxTries f sol ut ds = uniqLoop seen cfg.maxTries (cfg.maxTries - ut) sol ut ds) ∧
+    (∀ vu best tries ut ds, cfg.maxTries - tries ≤ f →
+      varLoop seen cfg.maxTries nargs cfg.usedVars f vu best tries ut ds =
+        varLoop seen cfg.maxTries nargs cfg.usedVars (cfg.maxTries - tries) vu best tries ut ds) ∧
+    (∀ tr i ts, cfg.maxTries + 1 - i ≤ f →
+      typeLoop failed cfg.maxTries f tr i ts = typeLoop failed cfg.maxTries (cfg.maxTries + 1 - i) tr i ts) ∧
+    (∀ sol args samples tries exs ind es, cfg.maxTries - tries ≤ f →
+      exLoop cfg ev sol args samples f tries exs ind es =
+        exLoop cfg ev sol args samples (cfg.maxTries - tries) tries exs ind es) :=
+  ⟨fun sol ut ds h => uniqLoop_fuel seen _ _ _ sol ut ds h (Nat.le_refl _),
+   fun vu best tries ut ds h => varLoop_fuel seen _ nargs _ _ _ vu best tries ut ds h (Nat.le_refl _),
+   fun tr i ts h => typeLoop_fuel failed _ _ _ tr i ts h (Nat.le_refl _),
+   fun sol args samples tries exs ind es h => exLoop_fuel cfg ev sol args samples _ _ tries exs ind es h (Nat.le_refl _)⟩
 
 /-! ## B. the real evaluator (property C11) -/
 section dsl
@@ -163,6 +199,14 @@ theorem C18_dsl (S : C11.Sem σ V E) (useCache : Bool) (cfg : Cfg T A (Tree σ) 
   exact ⟨C18_consistent cfg hF n s hc t ht, C18_member cfg hF n s hc t ht,
     C18_inputs cfg hF n s hc t ht, C18_distinct cfg hF n s hc t ht, C18_count cfg hF n s hc t ht,
     C18_tries cfg hF n s hc t ht⟩
+
+/-- cache on or off, empty or warmed up by any earlier evaluations: same tasks -/
+theorem C18_dsl_cache_independent (S : C11.Sem σ V E) (uc uc' : Bool) (cfg : Cfg T A (Tree σ) V E)
+    (n : Nat) (s s' : State T A (Tree σ) V (C11.Cache σ V)) (hc : C11.CacheSound S s.es)
+    (hc' : C11.CacheSound S s'.es) (hs : s.forget = s'.forget) :
+    tasksOf (run cfg (dslEv S uc) n s) = tasksOf (run cfg (dslEv S uc') n s') :=
+  (C18_evaluator_independent cfg (PS.C10.dslEv_faithful S uc) (PS.C10.dslEv_faithful S uc') n s s'
+    hc hc' hs).2
 
 end dsl
 
